@@ -100,7 +100,10 @@ def main():
         base = os.path.join(ROOT, "seeded", "neutral")
         allp = props or ["C%02d" % i for i in range(1, 21)]
         bad = 0
+        only = a[a.index("--only") + 1] if "--only" in a else ""
         for sid in sorted(os.listdir(base)):
+            if only not in sid:
+                continue
             d = os.path.join(base, sid)
             r = evaluate(d, allp, tier, quiet=True)
             alarms = {p: (c["rc"], c["mechanisms"][:2]) for p, c in r["checks"].items() if c["rc"] != 0}
